@@ -403,6 +403,7 @@ func genGenCase(t *rapid.T, prop string) *genCase {
 		// tool must answer with diagnostics, never with a crash
 		o.PParallel = 0
 		o.PPred = 0.35
+		o.PNamedBool = 0.06
 		// one flow per file so that verdicts are per file
 		p := &PackageSpec{}
 		nf := 6 + uniform(t, "nfiles", 10)
@@ -599,10 +600,35 @@ func runGenCase(gc *genCase, keepDir *string) *genOutcome {
 			}
 		}
 	}
+	// files whose verdict the listed properties do not fix (a signature cff
+	// may or may not support): accepted => must compile (checked below),
+	// rejected => cleanly, with a diagnostic naming the file
+	freeVerdict := map[string]bool{}
+	for _, f := range gc.pkg.Files {
+		for _, s := range f.Progs {
+			for _, ts := range s.Tasks {
+				if ts.Pred != nil && ts.Pred.NamedBool {
+					freeVerdict[f.Name] = true
+				}
+			}
+		}
+	}
 	anyReject := false
 	for _, f := range gc.pkg.Files {
 		gn := genName(f.Name)
 		_, have := gens[gn]
+		if freeVerdict[f.Name] && !expectReject[f.Name] {
+			if have {
+				oc.accepted++
+			} else {
+				anyReject = true
+				oc.rejected++
+				if !strings.Contains(out, f.Name) {
+					add("C13", "cff wrote no output for %s (predicate returning a declared boolean type) and no diagnostic names the file", f.Name)
+				}
+			}
+			continue
+		}
 		if expectReject[f.Name] {
 			anyReject = true
 			oc.rejected++
